@@ -304,6 +304,84 @@ func runC11(c *Ctx) {
 			})
 		}
 	}
+
+	// ---------------------------------------------------------------- R7
+	c.rule("R7", "shard methods run on the map's own shards (addressed in place, never on a copy), and Store reaches Set on every path except 'already expired'", 9)
+	for _, f := range p.funcsIn(relCMap) {
+		fn := f
+		eachInstr(f, func(in ssa.Instruction) {
+			ci, ok := in.(*ssa.Call)
+			if !ok {
+				return
+			}
+			sc := staticCallee(ci)
+			if sc == nil || sc.Signature.Recv() == nil || !strings.HasSuffix(typeKey(sc.Signature.Recv().Type()), relCMap+".shard") {
+				return
+			}
+			if fn.Signature.Recv() != nil && strings.HasSuffix(typeKey(fn.Signature.Recv().Type()), relCMap+".shard") {
+				return // shard calling itself
+			}
+			recv := ci.Call.Args[0]
+			good := false
+			switch x := recv.(type) {
+			case *ssa.IndexAddr:
+				if k, _ := fieldKey(x.X); k == relCMap+".Map.shards" {
+					good = true
+				}
+			case *ssa.Call:
+				if g := staticCallee(x); g != nil && g.Name() == "getShard" {
+					good = true
+				}
+			}
+			c.check(good, "shard-in-place@"+funcName(fn)+"->"+sc.Name(), instrPos(in), "the shard is addressed inside the map", "a shard method runs on "+exprStr(recv)+", which is not an element of the map's own shard array addressed in place (a copy: its lock protects nothing and its writes are lost)")
+		})
+	}
+	if gs := p.Func(relCMap, "Map", "getShard"); gs != nil {
+		good := false
+		for _, r := range returnsOf(gs) {
+			if ia, ok := returnedValues(r)[0].(*ssa.IndexAddr); ok {
+				if k, _ := fieldKey(ia.X); k == relCMap+".Map.shards" {
+					good = true
+				}
+			}
+		}
+		c.check(good, "shard-in-place@getShard", gs.Pos(), "getShard returns the address of the map's own shard", "getShard does not return the address of an element of Map.shards")
+	}
+	if stF := c.fn(relCachePkg, "Cache", "Store"); stF != nil {
+		eachInstr(stF, func(in ssa.Instruction) {
+			ci, ok := in.(*ssa.Call)
+			if !ok || callName(ci) != "(*pkg/concurrent_map.Map).Set" {
+				return
+			}
+			extra := ""
+			for _, g := range guardsOfInstr(in) {
+				v, truth := g.asBool()
+				if cl, ok := v.(*ssa.Call); ok && callName(cl) == "(time.Time).After" && !truth {
+					continue
+				}
+				extra = guardText(g)
+			}
+			// and every return is behind the Set, except the one for an already expired entry
+			for _, r := range returnsOf(stF) {
+				if instrDominates(in, r) {
+					continue
+				}
+				expired := false
+				for _, g := range guardsOfInstr(r) {
+					v, truth := g.asBool()
+					if cl, ok := v.(*ssa.Call); ok && callName(cl) == "(time.Time).After" && truth && cl.Call.Args[1] == ssa.Value(stF.Params[3]) {
+						if c2, ok := cl.Call.Args[0].(*ssa.Call); ok && callName(c2) == "time.Now" {
+							expired = true
+						}
+					}
+				}
+				if !expired {
+					extra = "a return that skips the Set for a reason other than 'already expired'"
+				}
+			}
+			c.check(extra == "", "store-always-sets", instrPos(in), "Store sets the entry unless it is already expired", "Store sets the entry only under "+extra+": a value stored later is silently dropped and Get keeps returning the overwritten one")
+		})
+	}
 	_ = sort.Strings
 	_ = types.Typ
 }
@@ -363,7 +441,36 @@ func runC11R3(c *Ctx) {
 			"size passed to NewMapCache is in "+argIv.String()+" on every path (>= shard count)",
 			"size passed to NewMapCache is in "+argIv.String()+": values below the shard count ("+itoa(shardN)+") give a per-shard maximum of 0, which means unlimited")
 	}
-	_ = initCall
+	// the clamp ran on the very object the size is read from (not on a copy), through a pointer receiver
+	{
+		same := false
+		if ic, ok := initCall.(*ssa.Call); ok && ic != nil {
+			recv := ic.Call.Args[0]
+			if ld, ok := mkCall.Call.Args[0].(*ssa.UnOp); ok && ld.Op == token.MUL {
+				if fa, ok := ld.X.(*ssa.FieldAddr); ok && fa.X == recv && instrDominates(ic, mkCall) {
+					same = true
+				}
+			}
+			if _, isPtr := initF.Signature.Recv().Type().(*types.Pointer); !isPtr {
+				same = false
+			}
+		}
+		c.check(same, "size-clamped-object@cache.New", instrPos(mkCall), "Opts.init ran (pointer receiver) on the object whose Size is passed on",
+			"the size passed to NewMapCache is not read from the object that Opts.init clamped (a copy was clamped, or init has a value receiver): sizes below the shard count give a per-shard maximum of 0 = unlimited")
+	}
+	// the map is built only there: every NewMapCache call of the cache package is the one checked above, and Cache.m is
+	// written only by the constructor
+	for _, f := range c.P.funcsIn(relCachePkg) {
+		fn := f
+		eachInstr(f, func(in ssa.Instruction) {
+			if ci, ok := in.(*ssa.Call); ok && staticCallee(ci) != nil && staticCallee(ci).Name() == "NewMapCache" && ci != mkCall {
+				c.fail("map-built-once@"+funcName(fn), instrPos(in), "a second NewMapCache call outside cache.New: its size argument is not clamped (e.g. a zero-valued opts field gives an unlimited map)")
+			}
+		})
+	}
+	for _, w := range c.P.whoWrites().byField[relCachePkg+".Cache.m"] {
+		c.check(w.Fn == nw, "map-built-once@"+funcName(w.Fn), instrPos(w.Instr), "Cache.m is set by the constructor", "Cache.m is replaced outside the constructor ("+funcName(w.Fn)+"): unsynchronised with readers, and the new map's bound is not the configured one")
+	}
 	// (b) NewMapCache: per-shard = size / shardN, passed to newShard
 	var perShardOK, foundShard bool
 	eachInstr(nmc, func(in ssa.Instruction) {
